@@ -113,7 +113,7 @@ func (f *Font) MakeGlyphNames() []string {
 			for _, subtable := range lookup.Subtables {
 				switch subtable := subtable.(type) {
 				case *gtab.Gsub1_1:
-					for origGid := range subtable.Cov {
+					for _, origGid := range subtable.Cov.Glyphs() {
 						newGid := origGid + subtable.Delta
 						if glyphNames[origGid] == "" || glyphNames[newGid] != "" {
 							continue
@@ -121,7 +121,8 @@ func (f *Font) MakeGlyphNames() []string {
 						glyphNames[newGid] = makeVariant(used, glyphNames[origGid])
 					}
 				case *gtab.Gsub1_2:
-					for origGid, idx := range subtable.Cov {
+					for _, origGid := range subtable.Cov.Glyphs() {
+						idx := subtable.Cov[origGid]
 						newGid := subtable.SubstituteGlyphIDs[idx]
 						if glyphNames[origGid] == "" || glyphNames[newGid] != "" {
 							continue
@@ -129,7 +130,8 @@ func (f *Font) MakeGlyphNames() []string {
 						glyphNames[newGid] = makeVariant(used, glyphNames[origGid])
 					}
 				case *gtab.Gsub3_1:
-					for origGid, idx := range subtable.Cov {
+					for _, origGid := range subtable.Cov.Glyphs() {
+						idx := subtable.Cov[origGid]
 						if glyphNames[origGid] == "" {
 							continue
 						}
@@ -141,7 +143,8 @@ func (f *Font) MakeGlyphNames() []string {
 					}
 				case *gtab.Gsub4_1:
 					var nn []string
-					for origGid, idx := range subtable.Cov {
+					for _, origGid := range subtable.Cov.Glyphs() {
+						idx := subtable.Cov[origGid]
 						name := glyphNames[origGid]
 						if name == "" {
 							continue
